@@ -10,6 +10,8 @@ PINGS2 = (rc.B(wire.PING, b"ping-one") + rc.B(wire.PING, b"ping-two")).hex()
 
 SCENARIOS = {
     "2x1_text_plain": {"deflate": False, "threads": {"A": [["send_text", P("A", 0)]], "B": [["send_text", P("B", 0)]]}},
+    "2x2_plain": {"deflate": False, "threads": {"A": [["send_text", P("A", 0)], ["send_binary", P("A", 1)]],
+                                                 "B": [["send_text", P("B", 0)], ["send_ping", "B-1:ping"]]}},
     "2x1_text_deflate": {"deflate": True, "threads": {"A": [["send_text", P("A", 0)]], "B": [["send_text", P("B", 0)]]}},
     "2x1_text_binary_deflate": {"deflate": True, "threads": {"A": [["send_text", P("A", 0)]], "B": [["send_binary", P("B", 0)]]}},
     "2x1_text_ping_deflate": {"deflate": True, "threads": {"A": [["send_text", P("A", 0)]], "B": [["send_ping", "B-0:ping"]]}},
@@ -76,6 +78,7 @@ SCENARIOS.update({
 })
 BOUND2 = ["2x1_text_plain", "2x1_text_deflate", "2x1_text_binary_deflate", "2x1_text_ping_deflate"]
 FIRST_USE = ["2x1_text_deflate", "2x1_text_deflate_nct"]
+IN_WRITE = ["2x2_plain", "close_vs_2_sends"]
 EARLY = 24
 _BASE = {}
 
@@ -215,13 +218,34 @@ class C11(Prop):
                         for t in names:
                             if t != who:
                                 yield {"scn": name, "order": list(order), "first": [step - 1, t], "sweep2": True}
+        def in_write_races():
+            # a first preemption while the running thread is INSIDE the locked write (between the two halves of the
+            # socket write) or about to take a lock - another thread then queues up behind it - x every second preemption
+            for name in self.in_write():
+                if name not in scns or name in bound2:
+                    continue
+                scn = scns[name]
+                names = thread_names(scn)
+                for order in itertools.permutations(names):
+                    log = baseline_log_for(self, name, order)
+                    for step, who, where in log:
+                        if where not in ("sendall.mid", "lock.acquire"):
+                            continue
+                        for t in names:
+                            if t != who:
+                                yield {"scn": name, "order": list(order), "first": [step - 1, t], "sweep2": True}
         out = [Enumeration("all_orders_x_single_preemptions" + ("_and_pairs" if bound2 else ""), cases, exhaustive=True)]
+        if self.in_write():
+            out.append(Enumeration("preemption_inside_a_write_x_every_second_preemption", in_write_races, exhaustive=True))
         if self.first_use():
             out.append(Enumeration("early_first_preemption_x_every_second_preemption", first_use_races, exhaustive=True))
         return out
 
     def first_use(self):
         return FIRST_USE
+
+    def in_write(self):
+        return [n for n in IN_WRITE if n in self.scenarios()]
 
     def bound2(self):
         return BOUND2
